@@ -90,7 +90,7 @@ transport.maxPoolCount = 5
 
 func main() {
 	run = h.NewRun(prop, "exploration")
-	run.Rule = "case = (server option set, control transport, TLS mode, pool size; 2-3 proxies each with kind, encryption, compression, limiter side+rate, PROXY version, greeting; 3-8 (sometimes 16-36 small simultaneous) connection scripts each with payload sizes, content classes, chunkings, close order); the first cases form a greedy all-pairs covering array over the option factors, the rest are PRNG extras, plus three fixed cases (kcp without tcpMux; visitor hand-over parked at a hook while the backend speaks first, on two servers); distinct = distinct full case signature; every counted connection moved checked bytes or a checked close through a real frpc-frps tunnel"
+	run.Rule = "case = (server option set, control transport, TLS mode, pool size; 2-3 proxies each with kind, encryption, compression, limiter side+rate, PROXY version, greeting; 3-8 (sometimes 16-36 small simultaneous) connection scripts each with payload sizes, content classes, chunkings, close order); the first cases form a greedy all-pairs covering array over the option factors, the rest are PRNG extras, plus four fixed cases (kcp without tcpMux; visitor hand-over parked at a hook while the backend speaks first, on two servers; quic streams whose last read carries data and end-of-stream through a 4 KB/s limiter on either side); distinct = distinct full case signature; every counted connection moved checked bytes or a checked close through a real frpc-frps tunnel"
 	run.Assumptions = []string{
 		"'eventually delivered' is decided as bounded progress: 60 s without a byte on a connection whose both ends are open is a stall; a close must reach the other end within 30 s",
 		"kcp is excluded from the completeness clause of orderly close (the property says reliable transports); prefix, identity and close propagation are still judged over kcp",
@@ -123,6 +123,9 @@ func main() {
 	// and one with the server's visitor hand-over parked (when the hook point exists) while a backend that
 	// speaks first already sends: the data must not overtake NewVisitorConnResp
 	cases = append(cases, visitorEarlyDataCase(0), visitorEarlyDataCase(1))
+	// and one where every stream ends with a read that carries data together with end-of-stream (quic), through a
+	// slow limiter on either side: those last bytes count like any others
+	cases = append(cases, limiterLastReadCase())
 	n = len(cases)
 
 	run.Parallel(n, 12, func(c *h.Case) {
@@ -146,6 +149,22 @@ func visitorEarlyDataCase(server int) *caseCfg {
 	return &caseCfg{Server: server, A: cliOpts{Proto: "tcp", TLS: 0, Pool: 5}, B: cliOpts{Proto: "tcp", TLS: 0, Pool: 1}, GateVisitor: true,
 		Proxies: []proxyCfg{{Kind: "stcp", VEnc: true, Greet: true, Serial: true, Conns: []connCfg{
 			conn("duplex", "U", 1000, 1000, 21), conn("duplex", "B", 100, 3000, 23), conn("downclose", "B", 0, 5000, 25)}}}}
+}
+
+func limiterLastReadCase() *caseCfg {
+	conns := func(script string, up, down int64, seed uint64) []connCfg {
+		var out []connCfg
+		for i := 0; i < 4; i++ {
+			out = append(out, connCfg{Script: script, Closer: "U", NUp: up, NDown: down, ChunkUp: 4096, ChunkDown: 4096, ClsUp: clsRandom, ClsDown: clsRandom,
+				SeedUp: seed + uint64(2*i), SeedDown: seed + uint64(2*i) + 1})
+		}
+		return out
+	}
+	return &caseCfg{Server: 0, A: cliOpts{Proto: "quic", TLS: 0, Pool: 1}, B: cliOpts{Proto: "tcp"},
+		Proxies: []proxyCfg{
+			{Kind: "tcp", Limit: "client", LKB: 4, Conns: conns("upclose", 3000, 0, 31)},
+			{Kind: "tcp", Limit: "server", LKB: 4, Conns: conns("downclose", 0, 3000, 51)},
+		}}
 }
 
 func kcpNoMuxCase() *caseCfg {
